@@ -464,11 +464,11 @@ FoldSrcSet(method) == IF IsCv(method) THEN FoldSrcs ELSE {"none"}
 LabFolds(foldsrc, unbal) ==
   CASE foldsrc = "none" -> AnyLab
     [] foldsrc = "explicit" -> DesignsExplicit
-    [] foldsrc = "default" -> IF unbal THEN AnyLab ELSE {<<d[1], <<>>>> : d \in DesignsDefault}
+    [] foldsrc = "default" -> IF unbal /\ Mode # "list" THEN AnyLab ELSE {<<d[1], <<>>>> : d \in DesignsDefault}
 LabFolds2(foldsrc, unbal) ==
   CASE foldsrc = "none" -> AnyLab2
     [] foldsrc = "explicit" -> DesignsExplicit2
-    [] foldsrc = "default" -> IF unbal THEN AnyLab2 ELSE {<<d[1], <<>>>> : d \in DesignsDefault2}
+    [] foldsrc = "default" -> {<<d[1], <<>>>> : d \in DesignsDefault2}    \* (lists: equal counts also for the unbalanced estimator, to keep the product of two designs small)
 \* option combinations of the new dimensions that exist in the API
 NewOk(method, useDesc, unbal, fprec, prec) ==
   /\ (IsCv(method) /\ ~unbal) => useDesc               \* the balanced cv estimators require a descriptor
@@ -491,6 +491,9 @@ InitList ==
     /\ (prec = <<>>) <=> (prec2 = <<>>)     \* "a given precision": given for both datasets or for neither
     /\ \E d \in LabFolds(foldsrc, unbal), d2 \in LabFolds2(foldsrc, unbal) :
          /\ (useDesc \/ ListNoDescOk(d[1], d2[1]))
+         \* calc_rdm_unbalanced stacks a list with concat ("requires that the rdms have the same shape"): only
+         \* equal condition sets are inside its contract; calc_rdm (from_partials) takes any two sets
+         /\ (unbal => Range(d[1]) = Range(d2[1]))
          /\ \E x \in MatSet(NObs), x2 \in MatSet(NObs2) :
               inp = [mode |-> Mode, method |-> method, rm |-> rm, prec |-> prec, prior |-> prior,
                      useDesc |-> useDesc, unbal |-> unbal, foldsrc |-> foldsrc, fold |-> d[2], fprec |-> <<>>,
